@@ -19,6 +19,7 @@ META = dict(
     required_hits=["exact_vs_quad", "expanded_vs_series", "roots_residual", "nnlo_imag_delta", "nnlo_imag_delta_nf6", "nnlo_real_delta"],
     max_inconclusive_frac=0.02,
 )
+META["level_text"] += ' Beta towers exactly on the internal boundaries d2=0 and d1=0 of the Cardano formula are included; half of the N3LO calls hand the b-coefficients over as a float64 array that must come back untouched.'
 
 EPS = np.finfo(float).eps
 TOL_EXACT = 1e-11
